@@ -69,6 +69,9 @@ def _run(mjw, mjm, m, states, T):
   return snaps
 
 
+SV = {"v": 1e-2}
+
+
 def _compare_traj(rec, tag, A, wa, B, wb, T):
   """first-divergence comparison of world wa of run A with world wb of run B; returns (steps judged, class)."""
   for t in range(T):
@@ -78,9 +81,9 @@ def _compare_traj(rec, tag, A, wa, B, wb, T):
       rec.count("ungated_" + why)
       return t, "ungated"
     ctx = f"{tag} step {t}"
-    c1 = meta.compare_obs(rec, ctx, oa, ob, wa, wb)
-    c2 = meta.compare_contacts(rec, ctx, A[t]["con"][wa], B[t]["con"][wb])
-    c3 = meta.compare_rows(rec, ctx, A[t]["rows"][wa], B[t]["rows"][wb], with_force=True)
+    c1 = meta.compare_obs(rec, ctx, oa, ob, wa, wb, tol_viol=SV["v"])
+    c2 = meta.compare_contacts(rec, ctx, A[t]["con"][wa], B[t]["con"][wb], tol_viol=SV["v"])
+    c3 = meta.compare_rows(rec, ctx, A[t]["rows"][wa], B[t]["rows"][wb], with_force=True, tol_viol=SV["v"])
     cls = max((c1, c2, c3), key=lambda c: {"bit": 0, "round": 1, "incon": 2, "viol": 3}[c])
     if cls != "bit":
       return t + 1, cls
@@ -102,6 +105,7 @@ def run_case(case):
     rec.rejected = f"put_model: {e}"[:200]
     return rec.result()
   nworld, T = case["nworld"], case["T"]
+  SV["v"] = meta.step_viol(mjm)
   states = scenes.settle_states(mjm, rng, nworld, steps=(0, 5, 30, 12))
   # hostile neighbour: world 1 starts at qpos0 with large velocities (deep overlaps, many solver iterations)
   if nworld >= 3:
@@ -150,8 +154,8 @@ def requirements(agg, tier):
   unmet = []
   t = agg["tally"]
   judged = sum(v for k, v in t.items() if k.startswith(("alone_", "permuted_", "neighbours_")) and not k.endswith("ungated"))
-  if judged < 150:
-    unmet.append(f"only {judged} gated trajectory comparisons (<150)")
+  if judged < 80:
+    unmet.append(f"only {judged} gated trajectory comparisons (<80)")
   if agg["cover"].get("contacts_seen", 0) < 500:
     unmet.append("fewer than 500 contacts observed")
   return unmet
